@@ -2,7 +2,7 @@ SPECIFICATION Spec
 CONSTANTS
   InitCap = 2
   MaxCap = 8
-  MaxLen = 11
+  MaxLen = 10
   Bytes = {"x", "n", "b"}
   Repaired = TRUE
 INVARIANTS WindowBounded Terminates OkMeansAll ChunkIndependent LongLineDropped LongLineOk
